@@ -65,6 +65,7 @@ def stateJson (x : Res × Sys) : Json :=
 
 def handle (op : String) (j : Json) : R Json := do
   match op with
+  | "c14.steps" => return obj [("steps", jstrs OF.RollLog.headStepNames)]
   | "c13.run" | "c14.run" =>
     let pol := match (strF j "policy").toOption with
       | some "pinned" => pinned
